@@ -789,6 +789,9 @@ func gen(c *vh.Ctx) {
 	for _, in := range structured() {
 		runCase(c, in, "case")
 	}
+	for _, in := range ekuFamilies() {
+		runCase(c, in, "case")
+	}
 	// checkChainForKeyUsage alone, exhaustive over short chains
 	sets := [][]int{{}, {0}, {1}, {4}, {2}, {1, 4}, {-1}, {3, 4}}
 	reqs := [][]int{{1}, {4}, {1, 4}, {4, 1}, {5}, {4, 5, 1}}
